@@ -342,7 +342,7 @@ Qed.
 Lemma GN_decorate : forall st s p v st', decorate st s p = (v, st') -> GN st -> GN st'.
 Proof.
   intros st s p v st' H HG. unfold decorate in H.
-  destruct (existsb _ _); [inversion H; subst; exact HG|].
+  destruct (negb _ || existsb _ _); [inversion H; subst; exact HG|].
   inversion H; subst; clear H.
   eapply GN_ext; [| | | | | |exact HG].
   - rewrite upd_scope_length. reflexivity.
@@ -1698,7 +1698,7 @@ Proof.
   - destruct (provide cfg st s q) as [v st'] eqn:E. cbn [snd]. apply provide_aux in E.
     unfold aux in E. injection E as E _ _ _ _. rewrite E. exact H.
   - fold (dec_fns_of h) in H. unfold decorate.
-    destruct (existsb _ _); cbn [snd].
+    destruct (negb _ || existsb _ _); cbn [snd].
     + apply NoDup_remove_1 in H. exact H.
     + cbn [upd_scope set_scopes set_decs st_decs]. rewrite map_app, <- app_assoc. exact H.
   - rewrite (skel_dec_fns _ _ (invoke_skel cfg b du st s q)). exact H.
@@ -1720,7 +1720,7 @@ Proof.
       * rewrite app_nth1 by lia. apply H. lia.
     + apply (HO_skel st st'); [|exact H]. apply sbv_skel. eapply provide_rejected_frame_gen; eauto.
     + exfalso. eapply provide_never_aborts; eauto.
-  - unfold decorate. destruct (existsb _ _); cbn [snd]; exact H.
+  - unfold decorate. destruct (negb _ || existsb _ _); cbn [snd]; exact H.
   - apply (HO_skel st); [symmetry; apply invoke_skel | exact H].
   - exact H.
 Qed.
@@ -1766,7 +1766,7 @@ Proof.
       * cbv zeta in Hsvc, Hperm |- *. rewrite Hperm, Hsvc. reflexivity.
       * cbv zeta in Hsvc |- *. rewrite Hsvc. reflexivity.
   - (* Decorate *)
-    unfold decorate. destruct (existsb _ _); reflexivity.
+    unfold decorate. destruct (negb _ || existsb _ _); reflexivity.
   - (* Invoke *)
     destruct (is_cycle_verdict _) eqn:Ec; [|reflexivity].
     apply is_cycle_verdict_inv in Ec. destruct Ec as (e & Ev & Hroot).
